@@ -117,7 +117,7 @@ Tok(buf, p) ==
           [] h.major = 1 -> T("atom", 0, DecInt(TRUE, h.arg), p + h.hl)
           [] h.major \in {2, 3} ->
                IF h.indef THEN T(IF h.major = 2 THEN "BI" ELSE "SI", 0, <<>>, p + 1)
-               ELSE IF ~IsSmall(h.arg) \/ p + h.hl + ToNat(h.arg) > Len(buf) THEN TEnd
+               ELSE IF ~IsSmall(h.arg) \/ ToNat(h.arg) > Len(buf) - p - h.hl THEN TEnd
                ELSE IF h.major = 3 /\ ~ValidUtf8(Payload(buf, p, h)) THEN T("err", 0, <<>>, Len(buf))
                ELSE T("atom", 0, IF h.major = 2 THEN RenderBytes(Payload(buf, p, h)) ELSE RenderText(Payload(buf, p, h)),
                       p + h.hl + ToNat(h.arg))
